@@ -10,6 +10,7 @@ RULE = ("ops: layout (frame 1..64 bytes, 0..8 in-frame signals, Intel/Motorola m
         "non-overlapping and overlapping) ; dlc (declared length 0..64, signals anywhere, strategy max/force) ; fit (every length 0..70 "
         "x FD flag) ; compress (frames whose signals share one byte order and do not overlap, random gaps; mixed frames as a no-op "
         "check). Exhaustive part: every gap pattern of frames <= 2 bytes built from 1..4 Motorola or Intel signals (quick: 1 byte). "
+        "For dlc the frame stands in a matrix among 0..3 other frames. "
         "Non-trivial = distinct case with at least one signal and (for compress/dummies) at least one gap.")
 EXHAUSTIVE = {"quick": False, "thorough": False}
 PARTIAL = ["compress: the theorems (compress_big_*, compress_little_*) are about frames of one byte order with disjoint, uniquely named "
